@@ -54,7 +54,7 @@ REQUIRED = ["roundtrips", "src_text", "src_bytes", "src_path", "offset_0", "offs
             "trees_with_int64_ids", "same_path_rewritten_then_read",
             "rejected_reads_before_roundtrip", "loaded_trees_saved_again", "size_sweep_cases", "src_path_other_spellings",
             "eswc_roundtrips", "line_generators_interleaved", "src_text_stream_with_its_own_encoding",
-            "roundtrips_under_custom_column_names",
+            "roundtrips_under_custom_column_names", "comment_lists_edited_after_construction",
             "tap_to_swc", "tap_parse_swc", "tap_reset_index_"]
 FLOOR = {"quick": 500, "thorough": 40000}
 SHARDS = {"quick": 8, "thorough": 16}
@@ -377,6 +377,26 @@ def _exec(ctx, case, tmp):
             if not np.array_equal(tree.ndata[k], v) or tree.ndata[k].dtype != v.dtype:
                 return ctx.violation("writer-mutates-tree", f"{what}: writing changed the tree's "
                                                             f"own column {k!r}", case)
+    if case["vseed"] % 3 == 1:
+        # the comment list given to the constructor is the caller's: it goes on to edit it (the
+        # next cell's header); and the tree's own list is not the caller's either
+        mine = list(comments)
+        t_c = Tree(n, **{k: tree.ndata[k].copy() for k in ("id", "type", "x", "y", "z", "r", "pid")},
+                   comments=mine)
+        if mine:
+            mine[0] = "edited by the caller"
+        mine.append("header of the next cell")
+        t_c.comments.append("a note on this cell")
+        ctx.count("comment_lists_edited_after_construction")
+        back = Tree.from_swc(io.StringIO(t_c.to_swc(source=False)))
+        g_ = [c.lstrip() for c in back.comments]
+        e_ = [c.lstrip() for c in comments] + ["a note on this cell"]
+        if g_ != e_ or mine[-1] != "header of the next cell" or "a note on this cell" in mine:
+            return ctx.violation("comments-changed",
+                                 f"a tree built with comments={comments[:3]!r}...: after the caller "
+                                 f"edited its own list and appended a note to the tree's, the tree "
+                                 f"writes {g_[:5]!r} (n={len(g_)}), expected {e_[:5]!r} (n={len(e_)}); "
+                                 f"the caller's list is {mine[:4]!r}", case)
     if case["vseed"] % 5 == 0 and n <= 400:
         # the same tree held under custom column names (`names=`), written and read with them
         def rt(t_):
